@@ -20,7 +20,11 @@ import time
 ROOT = os.path.dirname(os.path.dirname(os.path.abspath(__file__)))
 CACHE = os.path.join(ROOT, ".cache")
 COQ = os.path.join(ROOT, "coq")
-REPO = "/repo"
+# VERIF_REPO: developer facility — run a check against another checkout (e.g. a scratch worktree
+# with a seeded change) without touching /repo.  Registered commands never set it.
+REPO = os.path.abspath(os.environ.get("VERIF_REPO", "/repo"))
+ALT = REPO != "/repo"
+ALT_DIR = os.path.join(CACHE, "alt", hashlib.sha256(REPO.encode()).hexdigest()[:10]) if ALT else None
 GUARD = "rust_minidump_verif"
 NCPU = 16
 
@@ -28,7 +32,7 @@ ENV = dict(os.environ)
 ENV.update({
     "CARGO_NET_OFFLINE": "true",
     "RUSTFLAGS": "--cfg %s -Awarnings" % GUARD,
-    "CARGO_TARGET_DIR": os.path.join(CACHE, "cargo-target"),
+    "CARGO_TARGET_DIR": os.path.join(ALT_DIR, "target") if ALT else os.path.join(CACHE, "cargo-target"),
     "CARGO_TERM_COLOR": "never",
 })
 
@@ -86,10 +90,13 @@ def sha(*parts):
 
 
 # --------------------------------------------------------------------------- translators
-def translate():
-    """Regenerate coq/Gen/*.v from /repo's working tree (content-addressed)."""
+def translate(names=None):
+    """Regenerate coq/Gen/*.v from /repo's working tree (content-addressed).
+    names = the translators a property depends on (None = all of them)."""
     tdir = os.path.join(ROOT, "translate")
     for script in sorted(glob.glob(os.path.join(tdir, "*.py"))):
+        if names is not None and os.path.basename(script) not in names:
+            continue
         rc, out, _ = sh([sys.executable, script, REPO, os.path.join(COQ, "Gen")], timeout=120)
         if rc != 0:
             raise CheckFailure("translator %s failed:\n%s" % (os.path.basename(script), out[-3000:]))
@@ -270,8 +277,23 @@ def _ocaml_build_locked(pid, low, d):
 
 
 # --------------------------------------------------------------------------- rust harness
+def harness_dir():
+    """The harness crate; for VERIF_REPO runs a generated twin whose path dependencies point there."""
+    if not ALT:
+        return os.path.join(ROOT, "harness")
+    hd = os.path.join(ALT_DIR, "harness")
+    os.makedirs(os.path.join(hd, ".cargo"), exist_ok=True)
+    toml = open(os.path.join(ROOT, "harness", "Cargo.toml")).read().replace('"/repo/', '"%s/' % REPO)
+    write_if_changed(os.path.join(hd, "Cargo.toml"), toml)
+    write_if_changed(os.path.join(hd, ".cargo", "config.toml"), "[net]\noffline = true\n")
+    src = os.path.join(hd, "src")
+    if not os.path.islink(src):
+        os.symlink(os.path.join(ROOT, "harness", "src"), src)
+    return hd
+
+
 def cargo_build(bins, profiles=("debug", "release")):
-    hd = os.path.join(ROOT, "harness")
+    hd = harness_dir()
     lock = os.path.join(hd, "Cargo.lock")
     if not os.path.exists(lock):
         shutil.copy(os.path.join(REPO, "Cargo.lock"), lock)
@@ -286,7 +308,7 @@ def cargo_build(bins, profiles=("debug", "release")):
         if rc != 0:
             raise CheckFailure("cargo build (%s) failed — /repo's working tree does not compile with the harness:\n%s" % (prof, out[-4000:]))
         for b in bins:
-            exes[(b, prof)] = os.path.join(CACHE, "cargo-target", prof, b)
+            exes[(b, prof)] = os.path.join(ENV["CARGO_TARGET_DIR"], prof, b)
     return exes
 
 
@@ -356,7 +378,7 @@ def write_replay(pid, name, obj):
 
 
 def write_evidence(pid, ev):
-    d = os.path.join(ROOT, "evidence")
+    d = os.path.join(ROOT, "out", "alt-evidence") if ALT else os.path.join(ROOT, "evidence")
     os.makedirs(d, exist_ok=True)
     with open(os.path.join(d, pid + ".json"), "w") as f:
         json.dump(ev, f, indent=1)
